@@ -1,4 +1,5 @@
 import DaskModel.Props.C43
+import DaskModel.Model.DTypes
 /-!
 # C42 — lazy DataFrame metadata matches computed results
 
@@ -8,8 +9,14 @@ schema `metaOf` (kind of object: DataFrame / Series / scalar, column names and t
 computed WITHOUT data, is exactly the schema of `v`; `schema_of_partitions` — every partition of a
 blockwise expression has the schema of the whole (a partition is the same expression on a sub-frame
 of the source); `optimizer_keeps_schema` — an optimizer step accepted by C43's checker keeps the schema.
-dtypes, index name/dtype are outside the theorems (pandas type inference): checked by oracle on
-random programs (C36–C40, C46 pipelines), each partition separately.
+Review round — dtypes of the arithmetic / comparison / boolean subset: `Model/DTypes.lean` holds pandas' result-dtype table
+(`binDType`, `notDType`: int64 / float64 / bool operands, Python int operands typed int64) and `dtypeOf`, the typed lazy
+schema composed along an expression the way `._meta` is; the TABLE is checked against pandas every run on empty and on
+non-empty operands (value independence is what makes meta-on-empty-frames right), `dtypeOf` against the real
+`._meta.dtypes` of the logical and the optimised expression. Proved: `dtypeOf_erase` (the typed schema refines `metaOf`),
+`typed_schema_commutes` (it has the structure of the computed object), `cmp_is_bool`.
+Other dtypes (str, datetime, categorical, nullable), index name/dtype are outside the theorems (pandas type inference):
+checked by oracle on random programs (C36–C40, C46 pipelines), each partition separately.
 -/
 namespace Dask.C42
 open Dask.RelExpr
@@ -157,5 +164,157 @@ theorem optimizer_keeps_schema (s : Src) (hwf : C43.WF s) (a b : E) (v : Val)
 /-- non-vacuity -/
 example : metaOf ["a", "b"] (.proj ["z", "a"] (.assign (.filter .src (.bin .gt (.col .src "a") (.lit 1))) "z" (.lit 3)))
     = some (.frame ["z", "a"]) := by decide
+
+/-! ## dtypes of the arithmetic / comparison / boolean subset (review round) -/
+
+theorem setDT_erase (cols : List (String × DT)) (n : String) (d : DT) :
+    (setDT cols n d).map (·.1) = (if (colIdx (cols.map (·.1)) n).isSome then cols.map (·.1) else cols.map (·.1) ++ [n]) := by
+  unfold setDT
+  split
+  · simp only [List.map_map]
+    apply List.map_congr_left
+    intro kv _
+    simp only [Function.comp]
+    by_cases hk : (kv.1 == n) = true
+    · simp [hk]; exact (by simpa using hk : kv.1 = n).symm
+    · simp [hk]
+  · simp
+
+/-- **the typed lazy schema refines the lazy schema**: wherever dtypes can be assigned (the well-typed programs of the
+    fragment), kind of object and column names/order are those of `metaOf` — hence, by `schema_commutes`, those of the
+    computed object -/
+theorem dtypeOf_erase (src : List (String × DT)) : ∀ (e : E) (t : TSchema), dtypeOf src e = some t →
+    metaOf (src.map (·.1)) e = some t.erase := by
+  intro e
+  induction e with
+  | src => intro t h; simp only [dtypeOf, Option.some.injEq] at h; subst h; rfl
+  | lit k => intro t h; simp only [dtypeOf, Option.some.injEq] at h; subst h; rfl
+  | proj cs f ih =>
+    intro t h
+    simp only [dtypeOf] at h
+    cases hf : dtypeOf src f with
+    | none => simp [hf] at h
+    | some tf =>
+      cases tf with
+      | frame cols =>
+        simp only [hf] at h
+        split at h
+        · rename_i hc
+          simp only [Option.some.injEq] at h; subst h
+          have := ih _ hf
+          simp only [TSchema.erase] at this
+          simp [metaOf, this, hc, TSchema.erase, List.map_map, Function.comp_def]
+        · cases h
+      | series _ => simp [hf] at h
+      | scalar _ => simp [hf] at h
+  | col f n ih =>
+    intro t h
+    simp only [dtypeOf] at h
+    cases hf : dtypeOf src f with
+    | none => simp [hf] at h
+    | some tf =>
+      cases tf with
+      | frame cols =>
+        simp only [hf] at h
+        split at h
+        · rename_i hc
+          cases hl : lookupDT cols n with
+          | none => simp [hl] at h
+          | some d =>
+            simp only [hl, Option.map_some, Option.some.injEq] at h; subst h
+            have := ih _ hf
+            simp only [TSchema.erase] at this
+            simp [metaOf, this, hc, TSchema.erase]
+        · cases h
+      | series _ => simp [hf] at h
+      | scalar _ => simp [hf] at h
+  | filter f p ihf ihp =>
+    intro t h
+    simp only [dtypeOf] at h
+    cases hf : dtypeOf src f with
+    | none => simp [hf] at h
+    | some tf =>
+      cases hp : dtypeOf src p with
+      | none => cases tf <;> simp [hf, hp] at h
+      | some tp =>
+        have h1 := ihf _ hf
+        have h2 := ihp _ hp
+        cases tf <;> cases tp <;> simp only [hf, hp] at h <;> try (cases h; done)
+        all_goals
+          rename_i d
+          cases d <;> simp only [Option.some.injEq] at h <;> try (cases h; done)
+          subst h
+          simp only [TSchema.erase] at h1 h2
+          simp [metaOf, h1, h2, TSchema.erase]
+  | assign f n v ihf ihv =>
+    intro t h
+    simp only [dtypeOf] at h
+    cases hf : dtypeOf src f with
+    | none => simp [hf] at h
+    | some tf =>
+      cases hv : dtypeOf src v with
+      | none => cases tf <;> simp [hf, hv] at h
+      | some tv =>
+        have h1 := ihf _ hf
+        have h2 := ihv _ hv
+        cases tf <;> cases tv <;> simp only [hf, hv] at h <;> try (cases h; done)
+        all_goals
+          simp only [Option.some.injEq] at h; subst h
+          simp only [TSchema.erase] at h1 h2
+          simp [metaOf, h1, h2, TSchema.erase, setDT_erase]
+  | bin op a b iha ihb =>
+    intro t h
+    simp only [dtypeOf] at h
+    cases ha : dtypeOf src a with
+    | none => simp [ha] at h
+    | some ta =>
+      cases hb : dtypeOf src b with
+      | none => cases ta <;> simp [ha, hb] at h
+      | some tb =>
+        have h1 := iha _ ha
+        have h2 := ihb _ hb
+        cases ta <;> cases tb <;> simp only [ha, hb] at h <;> try (cases h; done)
+        all_goals
+          rename_i x y
+          cases hd : binDType op x y with
+          | none => simp [hd] at h
+          | some d =>
+            simp only [hd, Option.map_some, Option.some.injEq] at h; subst h
+            simp only [TSchema.erase] at h1 h2
+            simp [metaOf, h1, h2, TSchema.erase]
+  | not a ih =>
+    intro t h
+    simp only [dtypeOf] at h
+    cases ha : dtypeOf src a with
+    | none => simp [ha] at h
+    | some ta =>
+      have h1 := ih _ ha
+      cases ta <;> simp only [ha] at h <;> try (cases h; done)
+      all_goals
+        rename_i x
+        cases hd : notDType x with
+        | none => simp [hd] at h
+        | some d =>
+          simp only [hd, Option.map_some, Option.some.injEq] at h; subst h
+          simp only [TSchema.erase] at h1
+          simp [metaOf, h1, TSchema.erase]
+
+/-- the typed lazy schema has the structure of the computed object -/
+theorem typed_schema_commutes (s : Src) (ts : List (String × DT)) (hts : ts.map (·.1) = s.cols) (e : E) (v : Val) (t : TSchema)
+    (hv : den s e = some v) (ht : dtypeOf ts e = some t) : v.schema = t.erase := by
+  have h1 := schema_commutes s e v hv
+  have h2 := dtypeOf_erase ts e t ht
+  rw [hts, h1] at h2
+  exact Option.some.inj h2
+
+/-- the comparison operators give `bool` whatever the operand dtypes; arithmetic with a float operand gives `float64` -/
+theorem cmp_is_bool (op : BinOp) (h : op = .lt ∨ op = .le ∨ op = .gt ∨ op = .ge ∨ op = .eq ∨ op = .ne) (a b : DT) :
+    binDType op a b = some .bool := by
+  rcases h with h | h | h | h | h | h <;> subst h <;> cases a <;> cases b <;> rfl
+
+example : dtypeOf [("a", .int64), ("b", .float64), ("g", .bool)]
+    (.assign (.filter .src (.bin .and (.col .src "g") (.bin .gt (.col .src "a") (.lit 1)))) "z" (.bin .mul (.col .src "a") (.col .src "b")))
+    = some (.frame [("a", .int64), ("b", .float64), ("g", .bool), ("z", .float64)]) := by decide
+example : dtypeOf [("a", .int64), ("g", .bool)] (.bin .sub (.col .src "g") (.col .src "g")) = none := by decide
 
 end Dask.C42
